@@ -40,17 +40,17 @@ func genCfg(t *tape.Tape) world.Cfg {
 	t.Begin("cfg")
 	defer t.End()
 	c := world.Cfg{}
-	switch t.Weighted(2, 5, 2, 1) {
+	switch t.Weighted(6, 12, 3, 1) {
 	case 0:
 		c.OutputSize = 0
 	case 1:
-		c.OutputSize = uint32(t.Range(40, 160))
+		c.OutputSize = uint32(t.Range(70, 250))
 	case 2:
-		c.OutputSize = uint32(t.Range(12, 40))
+		c.OutputSize = uint32(t.Range(25, 70))
 	case 3:
-		c.OutputSize = uint32(t.Range(1, 12))
+		c.OutputSize = uint32(t.Range(1, 25))
 	}
-	switch t.Weighted(3, 1, 1) {
+	switch t.Weighted(8, 1, 3) {
 	case 0:
 		c.CacheSize = 0
 	case 1:
@@ -178,4 +178,19 @@ func short(s string) string {
 		return fmt.Sprintf("%q…(%d bytes)", s[:120], len(s))
 	}
 	return fmt.Sprintf("%q", s)
+}
+
+// errKey abbreviates an error message to a stable key for probe counters (digits removed).
+func errKey(e string) string {
+	var sb strings.Builder
+	for _, r := range e {
+		if r >= '0' && r <= '9' {
+			continue
+		}
+		sb.WriteRune(r)
+		if sb.Len() >= 40 {
+			break
+		}
+	}
+	return sb.String()
 }
